@@ -163,6 +163,22 @@ Proof.
 Qed.
 End Entry.
 
+(* the two halves separately *)
+Lemma prologue_only im args su :
+  setup (List.length args) = Ok su ->
+  exists s, run_straight im su (init_state args) = MOk s /\
+    frame_ok s sp0 /\ out s = [] /\ (exists f, rget s FREE = Some f) /\
+    (forall i, (i < List.length args)%nat -> rget s (X (2 * N.of_nat i + 5)) = Some (nth i args 0)).
+Proof. intros SU. destruct (prologue_ok im args su SU) as (s & A & B & C & D & E & _). eauto 8. Qed.
+Lemma epilogue_ok im args su s pcc s2 z :
+  setup (List.length args) = Ok su -> run_straight im su (init_state args) = MOk s ->
+  code_at im pcc cleanup -> frame_ok s2 sp0 -> outer_ok (stack s) sp0 s2 -> rget s2 RETURN1 = Some z ->
+  finishes im pcc s2 (finish (out s2) (OExit z)).
+Proof.
+  intros SU E. destruct (prologue_ok im args su SU) as (s' & A & _ & _ & _ & _ & EPI).
+  assert (s' = s) by congruence. subst s'. apply EPI.
+Qed.
+
 Lemma entry_rel CL c0 args e0 s :
   bind (vars c0) (map VInt args) = Some e0 -> NoDup (ids c0) -> ctx_int c0 = true -> (List.length args <= 7)%nat ->
   args_i64 args = true ->
